@@ -151,3 +151,25 @@ def run_contract(contract, args, g):
         except NotEvaluable:
             skipped += 1
     return 'held' if not skipped else 'held (%d clauses not natively evaluable)' % skipped
+
+
+def mk_message(d):
+    """real Message from a concretised heap object (dict of declared fields)"""
+    from aiocoap.message import Message
+    from aiocoap.numbers.codes import Code
+    from aiocoap.numbers.types import Type
+    m = Message(code=Code(d['code']) if d.get('code') is not None else None,
+                payload=d.get('payload', b'') or b'')
+    if d.get('mtype') is not None:
+        m.mtype = Type(d['mtype'] % 4)
+    m.mid = d.get('mid')
+    m.token = d.get('token', b'') or b''
+    o = d.get('opt') or {}
+    for k in ('observe', 'no_response', 'size1', 'size2'):
+        if isinstance(o, dict) and o.get(k) is not None:
+            setattr(m.opt, k, o[k])
+    for k in ('block1', 'block2'):
+        if isinstance(o, dict) and o.get(k) is not None:
+            n, more, szx = o[k]
+            setattr(m.opt, k, (max(n, 0), bool(more), szx % 8))
+    return m
